@@ -30,15 +30,17 @@ def negZeroBits : Nat := 0x8000000000000000
 
 /-! ## Labels and matchers -/
 
-/-- `MergeLabels(primary, secondary)`: both sorted by name, primary wins. -/
-def mergeLabels : Labels → Labels → Labels
-  | [], s => s
-  | p :: pr, [] => p :: pr
-  | p :: pr, s :: sr =>
-    if p.1 < s.1 then p :: mergeLabels pr (s :: sr)
-    else if s.1 < p.1 then s :: mergeLabels (p :: pr) sr
-    else p :: mergeLabels pr sr
-termination_by p s => p.length + s.length
+/-- `MergeLabels(primary, secondary)`: both sorted by name, primary wins (`fuel` ≥ the two lengths). -/
+def mergeLabelsF : Nat → Labels → Labels → Labels
+  | 0, p, s => p ++ s
+  | _ + 1, [], s => s
+  | _ + 1, p :: pr, [] => p :: pr
+  | fuel + 1, p :: pr, s :: sr =>
+    if p.1 < s.1 then p :: mergeLabelsF fuel pr (s :: sr)
+    else if s.1 < p.1 then s :: mergeLabelsF fuel (p :: pr) sr
+    else p :: mergeLabelsF fuel pr sr
+
+def mergeLabels (p s : Labels) : Labels := mergeLabelsF (p.length + s.length) p s
 
 inductive MT | eq | ne | re | nre
 deriving DecidableEq, Repr, Inhabited
@@ -262,8 +264,12 @@ structure ChunkSeries where
   chunks : List RChunk
 deriving DecidableEq, Repr, Inhabited
 
-/-- `sovTypes(x) = (bits.Len64(x|1) + 6) / 7` -/
-def sov (x : Nat) : Nat := (Nat.log2 (x ||| 1) + 1 + 6) / 7
+/-- `sovTypes(x) = (bits.Len64(x|1) + 6) / 7`: the number of 7-bit groups of `x` (x < 2^64) -/
+def sovAux : Nat → Nat → Nat
+  | 0, _ => 1
+  | fuel + 1, x => if x < 128 then 1 else 1 + sovAux fuel (x / 128)
+
+def sov (x : Nat) : Nat := sovAux 9 x
 
 def u64 (x : Int) : Nat := (x % 18446744073709551616).toNat
 
